@@ -859,6 +859,43 @@ def walker_check(F, rep, rule, f, enum_adt, bear, child_adts, exempt=None, famil
         if not kids:
             continue
         all_optional = all(fl["ty"].startswith("core::option::Option<") for fl in kidf)
+        # an arm that yields the constant `true` without looking further means "this node itself is a hit"
+        reg_blocks = regs.get(v, set())
+        const_true = [b for b in reg_blocks for s in f.stmts(b) if s["s"] == "assign" and not s["d"]["p"]
+                      and s["d"]["l"] == 0 and s["rv"]["r"] == "use" and s["rv"]["o"].get("c") == "true"]
+        only_true = bool(const_true) and not any(
+            f.term(b)["t"] == "call" and (callee_name(f.term(b)) or "") not in ("",) and
+            not (callee_generic(f.term(b)) or "").startswith("core::") for b in reg_blocks)
+        if only_true:
+            for k in kids:
+                rep.oblige(rule, "%s:%s::%s.%s" % (wname, short(enum_adt), v, k), True)
+            continue
+        # struct payloads (`Statement::If(IfStmt)`): their child-bearing fields count as children of the variant
+        for fl in kidf:
+            for a in fl["adts"]:
+                rec = F.adts.get(a)
+                if rec is None or rec["enum"] or a in child_adts or not a.startswith(enum_adt.rsplit("::", 1)[0]):
+                    continue
+                for sv in rec["variants"]:
+                    for sf in sv["fields"]:
+                        if not (any(x in child_adts for x in sf["adts"]) or field_is_bearing(sf, bear)):
+                            continue
+                        if direct_only and not any(x in child_adts for x in sf["adts"]):
+                            continue
+                        inst = "%s:%s.%s" % (wname, short(a), sf["name"])
+                        ok = (a, sv["name"], sf["name"]) in reads
+                        if not ok and inst in exempt:
+                            rep.oblige(rule, inst, True)
+                            rep.exempt(rule, inst, exempt[inst])
+                            continue
+                        rep.oblige(rule, inst, ok, sample={"rule": rule, "walker": f.path, "variant": v,
+                                                           "field": "%s.%s" % (short(a), sf["name"]), "visited": ok})
+                        if not ok:
+                            rep.add(Finding(rule, "%s|%s|%s.%s" % (rule, wname, short(a), sf["name"]),
+                                            "walker %s handles %s::%s but never looks at %s.%s: anything nested "
+                                            "there is invisible to the analysis this walker implements"
+                                            % (wname, short(enum_adt), v, short(a), sf["name"]),
+                                            file=f.file, line=sw["ln"], fn=f.path))
         for k in kids:
             inst = "%s:%s::%s.%s" % (wname, short(enum_adt), v, k)
             ok = (enum_adt, v, k) in reads
@@ -888,6 +925,7 @@ def walker_check(F, rep, rule, f, enum_adt, bear, child_adts, exempt=None, famil
                     g.endswith("::map") or g.endswith("::and_then") or g.endswith("::is_some_and") or \
                     g.endswith("::for_each") or g.endswith("::map_or"):
                 stops.add(b)
+        stops |= set(const_true)
         reach = f.reachable(tgt, avoid=stops)
         escapes = any(s in join for b in reach for s in f.succs()[b]) or \
             any(f.term(b)["t"] == "return" for b in reach)
